@@ -56,6 +56,8 @@ def digitsToNat (ds : Bytes) : Option Nat :=
 /-- The part of `time.Parse(time.RFC3339Nano, ·).UnixNano()` the generator uses:
 `<datePrefix>hh:mm:ss[.f{1,9}]Z`; anything else is a parse error. -/
 def parseTime (base : Int) (datePre : Bytes) (v : Bytes) : Option Int :=
+  -- the one other instant the generator writes: the Unix epoch, UnixNano() = 0
+  if v == Bytes.ofString "1970-01-01T00:00:00Z" then some 0 else
   if !(datePre.isPrefixOf v) then none else
   match v.drop datePre.length with
   | h1 :: h2 :: 58 :: m1 :: m2 :: 58 :: s1 :: s2 :: rest =>
